@@ -783,7 +783,7 @@ func killTimeoutThenConnect(o *out, c *hx.Ctx) {
 	all := []*peer{a, pB, pC, pD}
 	waitFor(3*time.Second, func() bool { k, _ := openOnes(all); return k <= 1 }) // (waited out on the current tree: two stay open)
 	open, names := openOnes(all)
-	o.direct("takeover_blocked_in_write", n, open <= 1,
+	o.direct("unique_after_kill_timeout", n, open <= 1,
 		fmt.Sprintf("kill timeout reached with the displaced connection's Terminate held back (the situation of an old connection blocked in a carrier write, reached without one): newcomer refused=%v; "+
 			"next connection acknowledged=%v; after the held-back Terminate ran, a further connection acknowledged=%v; live connections with the one client id: %v (at most one expected)", refusedB, ackC != nil, ackD != nil, names))
 	for _, p := range all {
